@@ -431,8 +431,12 @@ class HttpParser(abc.ABC, Generic[_MsgT]):
 
                         assert self.protocol is not None
                         # calculate payload
+                        # A response to HEAD has no body whatever its headers
+                        # say; a HEAD request is framed like any other request
+                        # (https://www.rfc-editor.org/rfc/rfc9112#section-6.3),
+                        # so self.method (set for responses only) decides.
                         empty_body = code in EMPTY_BODY_STATUS_CODES or bool(
-                            method and method in EMPTY_BODY_METHODS
+                            self.method and self.method in EMPTY_BODY_METHODS
                         )
                         if not empty_body and (
                             (length is not None and length > 0) or msg.chunked
